@@ -1,8 +1,982 @@
+"""Engine W: rules on the generated wrappers of the fixture corpus (fx_sync, fx_async)."""
+from collections import defaultdict
+from .facts import callee_name, strip_generics
+from .spec import Spec, Weigher
+from .expr import Expr, walk, calls_in, strip_casts, field_path, show
+from .program import ONCE_FAMILY
+from .types import parse, strip_refs
+from . import names as N
+
+STORE_METHODS = ('insert', 'insert_with_memory', 'insert_result', 'insert_result_with_memory')
+FN_CALLS = ('core::ops::function::Fn::call', 'core::ops::function::FnOnce::call_once', 'core::ops::function::FnMut::call_mut')
+INTO_FUTURE = 'core::future::into_future::IntoFuture::into_future'
+POLL = 'core::future::future::Future::poll'
+IS_OK = 'core::result::Result::is_ok'
+VOCAB_W = ['new', 'get', 'body', 'store', 'pred:cache_if', 'pred:invalidate_on', 'is_ok', 'once']
+IXW = {k: i for i, k in enumerate(VOCAB_W)}
+NEW_ARGS = {
+    N.GLOBAL: ['map', 'order', 'limit', 'max_memory', 'policy', 'ttl', 'frequency_weight', 'stats'],
+    N.THREAD: ['map', 'order', 'limit', 'max_memory', 'policy', 'ttl', 'frequency_weight'],
+    N.ASYNC: ['map', 'order', 'limit', 'max_memory', 'policy', 'ttl', 'frequency_weight', 'stats'],
+}
+
+
+class Wrap:
+    def __init__(self, ctx, path, e):
+        self.ctx = ctx
+        self.prog = ctx.prog
+        self.path = path
+        self.e = e
+        self.is_async = e['macro'] == 'async'
+        fns = self.prog.by_name.get(path, [])
+        self.fn = fns[0] if fns else None
+        self.body = None
+        if self.fn is not None:
+            if self.is_async:
+                cs = [c for c in self.fn.crate.children(self.fn) if c.kind == 'coroutine']
+                self.body = cs[0] if len(cs) == 1 else None
+            else:
+                self.body = self.fn
+        self.crate = self.fn.crate.name if self.fn else None
+        self._ex = None
+        self._sites = None
+
+    @property
+    def ex(self):
+        if self._ex is None:
+            self._ex = Expr(self.body)
+        return self._ex
+
+    def classify(self, t):
+        cn = callee_name(t)
+        for adt in N.CACHE_ADTS:
+            if cn == adt + '::new':
+                return 'new'
+            if cn == adt + '::get':
+                return 'get'
+            for m in STORE_METHODS:
+                if cn == adt + '::' + m:
+                    return 'store'
+        if cn in FN_CALLS and not self.is_async:
+            r = t['callee'].get('resolved_id') or ''
+            if r.startswith(self.fn.id + '::{closure'):
+                return 'body'
+        if cn == INTO_FUTURE and self.is_async:
+            return 'body'
+        if cn == IS_OK:
+            return 'is_ok'
+        if cn in ONCE_FAMILY:
+            return 'once'
+        for attr in ('cache_if', 'invalidate_on'):
+            if self.e.get(attr) and cn == '%s::%s' % (self.crate, self.e[attr]):
+                return 'pred:' + attr
+        return None
+
+    def sites(self, reachable=None):
+        out = defaultdict(list)
+        for b, t in self.body.calls():
+            if reachable is not None and b not in reachable:
+                continue
+            k = self.classify(t)
+            if k:
+                out[k].append((b, t))
+        return out
+
+    def selected(self):
+        """blocks reachable once the scope test is folded"""
+        sp = Spec(self.prog, self.body, {})
+        return sp.reachable_blocks()
+
+    def weigher(self, oracles):
+        return Weigher(self.prog, {}, VOCAB_W, oracles=oracles, classify=self.classify, descend=False)
+
+    def param_expr(self, i):
+        """expression denoting the i-th (1-based, receiver first) parameter inside the analysed body"""
+        if not self.is_async:
+            return ('param', i)
+        return ('upvar', i - 1)
+
+    def norm(self, e):
+        """normalise parameter references: coroutine captures -> ('upvar', k)"""
+        e = strip_casts(e)
+        if self.is_async and e[0] == 'field' and e[1] == ('param', 1) and str(e[3]).startswith('coroutine:'):
+            return ('upvar', int(e[2]))
+        return e
+
+
+def wrappers(ctx):
+    if not hasattr(ctx, '_wrappers'):
+        ws = []
+        for path, e in sorted(ctx.expect.items()):
+            ws.append(Wrap(ctx, path, e))
+        ctx._wrappers = ws
+    return ctx._wrappers
+
+
+def _ret_ty(w):
+    """resolved return type: for an async fn the coroutine's return place, not the opaque future"""
+    if w.is_async and w.body is not None:
+        return w.body.local_ty(0)
+    return w.fn.js.get('ret_ty') or ''
+
+
+def _resolved_result(w):
+    return _ret_ty(w).startswith('core::result::Result<')
+
+
+def _vecw(v):
+    return {k: v[i] for k, i in IXW.items()}
+
+
+def _fx_key(w, suffix):
+    return '%s/%s' % ('cache' if not w.is_async else 'cache_async', suffix)
+
+
+# ------------------------------------------------------------------------------------------------
+def wrapper_scenarios(ctx):
+    """per fixture: list of (oracle assignment dict, outcomes set(vec)) plus site table"""
+    if hasattr(ctx, '_wrap_rows'):
+        return ctx._wrap_rows
+    rows = []
+    for w in wrappers(ctx):
+        if w.body is None:
+            rows.append((w, None, None))
+            continue
+        reach = w.selected()
+        sites = w.sites(reach)
+        combos = []
+        inv = bool(w.e.get('invalidate_on'))
+        cif = bool(w.e.get('cache_if'))
+        isok = bool(sites.get('is_ok'))
+        for found in (0, 1):
+            for stale in ((0, 1) if (inv and found) else (None,)):
+                for keep in ((0, 1) if cif else (None,)):
+                    for ok in ((0, 1) if isok else (None,)):
+                        combos.append({'found': found, 'stale': stale, 'keep': keep, 'ok': ok})
+        res = []
+        for c in combos:
+            orc = {}
+            for (b, t) in sites.get('get', []):
+                orc[(w.body.id, b)] = c['found']
+            for (b, t) in sites.get('pred:invalidate_on', []):
+                if c['stale'] is not None:
+                    orc[(w.body.id, b)] = c['stale']
+            for (b, t) in sites.get('pred:cache_if', []):
+                if c['keep'] is not None:
+                    orc[(w.body.id, b)] = c['keep']
+            for (b, t) in sites.get('is_ok', []):
+                if c['ok'] is not None:
+                    orc[(w.body.id, b)] = c['ok']
+            wg = w.weigher(orc)
+            sp = wg.spec(w.body)
+            outs = set()
+            for n_, vs in sp.path_totals().items():
+                outs |= vs
+            res.append((c, outs))
+        rows.append((w, sites, res))
+    ctx._wrap_rows = rows
+    return rows
+
+
+def check_wrapper_flow(run, ctx, rules):
+    """C03-W1/W2, C09-W1, C10-W1, C11-W1 (selected by `rules`) on the scenario table of every fixture"""
+    n = 0
+    fams = defaultdict(int)
+    for (w, sites, res) in wrapper_scenarios(ctx):
+        fam = w.e['family']
+        if w.body is None or res is None:
+            run.bad(rules[0], _fx_key(w, 'fail-closed/%s' % w.path), 'fail-closed: fixture %s has no analysable body' % w.path)
+            continue
+        inv = bool(w.e.get('invalidate_on'))
+        cif = bool(w.e.get('cache_if'))
+        is_res = _resolved_result(w)
+        mem = w.e.get('max_memory') is not None
+        if len(sites.get('get', [])) != 1 or len(sites.get('new', [])) != 1 or len(sites.get('body', [])) != 1:
+            run.bad(rules[0], _fx_key(w, 'shape'), 'generated wrapper of %s does not have exactly one cache construction, one lookup and one body invocation on the selected branch '
+                    '(new=%d get=%d body=%d)' % (w.path, len(sites.get('new', [])), len(sites.get('get', [])), len(sites.get('body', []))), site=w.path)
+            continue
+        if not sites.get('store') or any(not outs for (c, outs) in res):
+            run.bad(rules[0] + '-W1', _fx_key(w, 'shape-no-store'), 'generated wrapper of %s has no reachable store call or no path to return in some scenario (stores=%d)'
+                    % (w.path, len(sites.get('store', []))), site=w.path, oracle='every wrapper stores its result on some path and returns')
+            continue
+        fams[fam] += 1
+        store_methods = sorted({callee_name(t).rsplit('::', 1)[-1] for (b, t) in sites.get('store', [])})
+        for (c, outs) in res:
+            for v in outs:
+                d = _vecw(v)
+                n += 1
+                body_exp = 1 if (c['found'] == 0 or (inv and c['stale'] == 1)) else 0
+                desc = '%s [%s] scenario %s' % (w.path, ', '.join('%s = %s' % (a, b) for a, b in w.e['attrs']) or 'no attributes', {k: v_ for k, v_ in c.items() if v_ is not None})
+                # --- C03-W1: hit returns before the body; miss runs it once
+                if 'C03' in rules:
+                    if d['get'] != 1:
+                        run.bad('C03-W1', _fx_key(w, 'lookup-count'), 'the wrapper performs %d lookups on a path (%s)' % (d['get'], desc), site=w.path)
+                    elif d['body'] != body_exp:
+                        run.bad('C03-W1', _fx_key(w, 'hit-runs-body' if body_exp == 0 else 'miss-skips-body'),
+                                'the function body runs %d time(s) where %d is expected (%s)' % (d['body'], body_exp, desc), site=w.path,
+                                oracle='cached value returned before the body; body runs exactly once on a miss / stale entry')
+                    elif not cif and not is_res and body_exp == 1 and d['store'] != 1:
+                        run.bad('C03-W2', _fx_key(w, 'result-not-stored'), 'a computed result of a plain-typed function is stored %d time(s) (%s)' % (d['store'], desc), site=w.path,
+                                oracle='unconditional store after the body for plain return types')
+                    elif body_exp == 0 and d['store']:
+                        run.bad('C03-W1', _fx_key(w, 'hit-stores'), 'a served hit stores again (%s)' % desc, site=w.path)
+                    else:
+                        run.ok('C03-W1', '%s/%s' % (w.path, c), 'body=%d store=%d' % (d['body'], d['store']))
+                # --- C11-W1
+                if 'C11' in rules and inv:
+                    exp_inv = 1 if c['found'] == 1 else 0
+                    if d['pred:invalidate_on'] != exp_inv:
+                        run.bad('C11-W1', _fx_key(w, 'check-count'), 'invalidate_on is consulted %d time(s), expected %d (%s)' % (d['pred:invalidate_on'], exp_inv, desc), site=w.path,
+                                oracle='the check is consulted exactly once per cached entry found, never on a miss')
+                    elif d['body'] != body_exp:
+                        run.bad('C11-W1', _fx_key(w, 'stale-served' if body_exp else 'fresh-recomputed'),
+                                '%s (%s)' % ('an entry the check declares stale is returned without recomputing' if body_exp else 'an entry the check accepts is recomputed', desc),
+                                site=w.path, oracle='cached value returned only on the false edge of invalidate_on(&key, &cached)')
+                    elif body_exp and not cif and not is_res and d['store'] != 1:
+                        run.bad('C11-W1', _fx_key(w, 'refresh-not-stored'), 'the recomputed value of a stale entry is not stored (%s)' % desc, site=w.path)
+                    else:
+                        run.ok('C11-W1', '%s/%s' % (w.path, c), 'check=%d body=%d store=%d' % (d['pred:invalidate_on'], d['body'], d['store']))
+                # --- C10-W1
+                if 'C10' in rules and cif:
+                    if d['pred:cache_if'] != body_exp:
+                        run.bad('C10-W1', _fx_key(w, 'predicate-count'), 'cache_if is consulted %d time(s) where %d is expected (%s)' % (d['pred:cache_if'], body_exp, desc), site=w.path,
+                                oracle='the predicate is consulted exactly once per execution of the body and never on a hit')
+                    elif body_exp and d['store'] != (1 if c['keep'] else 0) and not (is_res and not w.is_async):
+                        run.bad('C10-W1', _fx_key(w, 'predicate-ignored' if d['store'] else 'predicate-inverted'),
+                                'cache_if returned %s but the result is stored %d time(s) (%s)' % (bool(c['keep']), d['store'], desc), site=w.path,
+                                oracle='store control-dependent on the true edge of cache_if(&key, &result)')
+                    elif body_exp and is_res and not w.is_async and d['store'] != (1 if c['keep'] else 0):
+                        run.bad('C10-W1', _fx_key(w, 'predicate-ignored' if d['store'] else 'predicate-inverted'),
+                                'cache_if returned %s but the store call is made %d time(s) (%s)' % (bool(c['keep']), d['store'], desc), site=w.path)
+                    else:
+                        run.ok('C10-W1', '%s/%s' % (w.path, c), 'pred=%d store=%d' % (d['pred:cache_if'], d['store']))
+                # --- C09-W1 (async part: store guarded by is_ok)
+                if 'C09' in rules and is_res and not cif and w.is_async and body_exp:
+                    if c['ok'] is None:
+                        pass  # no is_ok site at all: reported below once per fixture
+                    elif d['store'] != c['ok']:
+                        run.bad('C09-W1', _fx_key(w, 'err-stored' if d['store'] else 'ok-not-stored'), 'is_ok() is %s but the result is stored %d time(s) (%s)' % (bool(c['ok']), d['store'], desc), site=w.path,
+                                oracle='async: store control-dependent on the true edge of result.is_ok()')
+                    else:
+                        run.ok('C09-W1', '%s/%s' % (w.path, c), 'ok=%s store=%d' % (c['ok'], d['store']))
+        # --- per-fixture store-method rules
+        if 'C09' in rules and is_res and not cif:
+            n += 1
+            if not w.is_async:
+                bad = [m for m in store_methods if not m.startswith('insert_result')]
+                if bad or not store_methods:
+                    run.bad('C09-W1', _fx_key(w, 'err-cached/%s' % w.e['ret']), 'the function returns a Result (resolved type %s, written `%s`) but the generated store is `%s`: Err values are cached'
+                            % (_ret_ty(w), w.e['ret'], ','.join(store_methods) or 'none'), site=w.path, oracle='sync Result functions store through insert_result*/Ok only')
+                else:
+                    run.ok('C09-W1', '%s/store-method' % w.path, 'Result `%s` -> %s' % (w.e['ret'], store_methods))
+            else:
+                if not sites.get('is_ok'):
+                    run.bad('C09-W1', _fx_key(w, 'err-cached/%s' % w.e['ret']), 'the async function returns a Result (resolved type %s, written `%s`) but the generated store is not guarded by is_ok(): '
+                            'Err values are cached' % (_ret_ty(w), w.e['ret']), site=w.path, oracle='async Result functions store only when is_ok()')
+                else:
+                    run.ok('C09-W1', '%s/is_ok-guard' % w.path, 'Result `%s` guarded by is_ok' % w.e['ret'])
+        if 'C10' in rules and cif and is_res and not w.is_async:
+            n += 1
+            bad = [m for m in store_methods if not m.startswith('insert_result')]
+            if bad:
+                run.bad('C10-W1', _fx_key(w, 'result-with-cache_if-stores-err/%s' % w.e['ret']), 'a sync Result function with cache_if stores through `%s`: an accepted Err would be cached (written `%s`)'
+                        % (','.join(store_methods), w.e['ret']), site=w.path, oracle='for sync Result functions the guarded store is the Ok-only one')
+            else:
+                run.ok('C10-W1', '%s/ok-only-store' % w.path, 'guarded store is %s' % store_methods)
+        if 'C05' in rules:
+            n += 1
+            want_mem = mem
+            got_mem = [m.endswith('with_memory') for m in store_methods]
+            if store_methods and all(g == want_mem for g in got_mem):
+                run.ok('C05-W1', '%s/store-method' % w.path, 'max_memory %s -> %s' % ('set' if mem else 'absent', store_methods))
+            else:
+                run.bad('C05-W1', _fx_key(w, 'memory-store-mismatch'), 'max_memory is %s but the generated store is `%s` (%s)' % ('set' if mem else 'absent', ','.join(store_methods) or 'none', w.path),
+                        site=w.path, oracle='max_memory present <=> *_with_memory store')
+    return n, dict(fams)
+
+
+# ------------------------------------------------------------------------------------------------
+def check_wrapper_dataflow(run, ctx, rule='C01-W1'):
+    """same key to lookup and store; hit returns the looked-up payload; otherwise the body result, which is what gets stored;
+    predicates receive (key, value)"""
+    n = 0
+    for (w, sites, res) in wrapper_scenarios(ctx):
+        if w.body is None or not sites or len(sites.get('get', [])) != 1 or len(sites.get('body', [])) != 1:
+            continue
+        ex = w.ex
+        body = w.body
+        n += 1
+        gb, gt = sites['get'][0]
+        bb, bt = sites['body'][0]
+        key_get = ex.operand(gt['args'][1])
+        probs = []
+        for (sb, st) in sites.get('store', []):
+            ks = ex.operand(st['args'][1])
+            if ks != key_get:
+                probs.append('store key %s differs from lookup key %s' % (show(ks), show(key_get)))
+            val = strip_casts(ex.operand(st['args'][2]))
+            # value: clone(result) or result; result is the body's value
+            root = val
+            if root[0] == 'call' and root[1] == N.CLONE:
+                root = root[2][0]
+            if not _is_body_result(w, root, bb):
+                probs.append('stored value %s is not the result of the body invocation' % show(val))
+        for (pb, pt) in sites.get('pred:cache_if', []):
+            a0 = ex.operand(pt['args'][0])
+            a1 = strip_casts(ex.operand(pt['args'][1]))
+            if a0 != key_get:
+                probs.append('cache_if is given %s instead of the key' % show(a0))
+            if not _is_body_result(w, a1, bb):
+                probs.append('cache_if is given %s instead of the result' % show(a1))
+        for (pb, pt) in sites.get('pred:invalidate_on', []):
+            a0 = ex.operand(pt['args'][0])
+            a1 = strip_casts(ex.operand(pt['args'][1]))
+            if a0 != key_get:
+                probs.append('invalidate_on is given %s instead of the key' % show(a0))
+            if not _is_cached(a1, gb):
+                probs.append('invalidate_on is given %s instead of the cached value' % show(a1))
+        # return value definitions (on the branch the scope selects)
+        reach = w.selected()
+        for d in body.defs.get(0, []):
+            if d[1] not in reach:
+                continue
+            e = strip_casts(ex._def(d, 0))
+            if w.is_async and e[0] == 'agg' and e[1].endswith('Poll::Ready'):
+                e = strip_casts(e[2][0])
+            blk = d[1]
+            if _is_cached(e, gb):
+                if blk in body.reachable(bb):
+                    probs.append('a cached value is returned after the body has run (bb%d)' % blk)
+            elif _is_body_result(w, e, bb):
+                if not body.dominates(bb, blk):
+                    probs.append('the body result is returned on a path that does not run the body')
+            elif e[0] == 'const' and e[2] == '()':
+                pass
+            else:
+                probs.append('the wrapper returns %s, which is neither the cached value nor the body result' % show(e))
+        if probs:
+            run.bad(rule, _fx_key(w, 'dataflow'), 'generated wrapper of %s: %s' % (w.path, '; '.join(sorted(set(probs)))), site=w.path,
+                    oracle='key -> get -> (body) -> store(key, result) -> return result / cached')
+        else:
+            run.ok(rule, w.path, 'lookup and store share the key; hit returns the looked-up payload; miss returns and stores the body result')
+    return n
+
+
+def _is_cached(e, get_block):
+    e = strip_casts(e)
+    root, names = field_path(e)
+    return root[0] == 'call' and root[3] == get_block and names[:2] == ['as:Some', '0']
+
+
+def _is_body_result(w, e, body_block):
+    e = strip_casts(e)
+    if not w.is_async:
+        return e[0] == 'call' and e[3] == body_block
+    root, names = field_path(e)
+    if root[0] == 'call' and root[1] == POLL and names[:2] == ['as:Ready', '0']:
+        # the polled future is the one created at body_block
+        return True
+    return False
+
+
+# ------------------------------------------------------------------------------------------------
+def _opt_const(e):
+    """('some', value) | ('none',) | None from an Option aggregate expression"""
+    e = strip_casts(e)
+    if e[0] == 'agg' and e[1] == N.OPTION + '::None':
+        return ('none',)
+    if e[0] == 'agg' and e[1] == N.OPTION + '::Some' and e[2] and strip_casts(e[2][0])[0] == 'const':
+        return ('some', strip_casts(e[2][0])[1])
+    return None
+
+
+def policy_from_str_table(ctx):
+    """string -> variant table of <EvictionPolicy as From<&str>>::from, read off its MIR"""
+    body = None
+    for b in ctx.core.bodies.values():
+        if b.name == '<cachelito_core::eviction_policy::EvictionPolicy as core::convert::From>::from':
+            body = b
+    if body is None:
+        return None
+    table = {}
+    default = None
+    for bi, t in body.calls():
+        cn = callee_name(t)
+        if 'PartialEq' in cn and t['callee'].get('self_ty') in ('str', '&str'):
+            s = None
+            for a in t['args']:
+                if 'const' in a and 'str' in a['const']:
+                    s = a['const']['str']
+            if s is None:
+                ex = Expr(body)
+                for a in t['args']:
+                    e = ex.operand(a)
+                    if e[0] == 'const' and isinstance(e[1], str):
+                        s = e[1]
+            if s is None:
+                continue
+            # follow the true edge to the assignment of _0
+            cur = t['target']
+            seen = set()
+            var = None
+            truth = True
+            while cur is not None and cur not in seen and var is None:
+                seen.add(cur)
+                bl = body.blocks[cur]
+                for st in bl['stmts']:
+                    if st['k'] == 'assign' and st['dst']['l'] == 0 and 'agg' in st['rv'] and isinstance(st['rv']['agg'], dict):
+                        var = st['rv']['agg'].get('variant')
+                tm = bl['term']
+                if var is not None:
+                    break
+                if tm['k'] == 'switch':
+                    # true edge = not the 0 target
+                    nxt = tm['otherwise']
+                    for v, tb in tm['targets']:
+                        if v != 0:
+                            nxt = tb
+                    cur = nxt
+                elif tm['k'] == 'goto':
+                    cur = tm['target']
+                else:
+                    cur = None
+            if var:
+                table[s] = var
+    return table
+
+
+def check_wrapper_config(run, ctx, rules=('C19', 'C14')):
+    """C19-W1 configuration identity; C14-W1 scope selects the branch and the matching kind of statics"""
+    n = 0
+    ptab = policy_from_str_table(ctx)
+    if 'C19' in rules:
+        want = {'fifo': 'FIFO', 'lru': 'LRU', 'lfu': 'LFU', 'arc': 'ARC', 'random': 'Random', 'tlru': 'TLRU'}
+        if ptab is None:
+            run.bad('C19-W1', 'policy-table/fail-closed', 'fail-closed: <EvictionPolicy as From<&str>>::from not found')
+        else:
+            for s_, v in want.items():
+                if s_ in ('lru',) and s_ not in ptab:
+                    run.ok('C19-W1', 'policy-table/%s' % s_, '"%s" falls through to the default arm (LRU)' % s_)
+                elif ptab.get(s_) != v:
+                    run.bad('C19-W1', 'policy-table/%s' % s_, 'EvictionPolicy::from("%s") yields %s, not %s: async functions get a different policy than written' % (s_, ptab.get(s_), v),
+                            site='cachelito_core::eviction_policy', oracle='the six policy names map to the same-named variant')
+                else:
+                    run.ok('C19-W1', 'policy-table/%s' % s_, '"%s" -> %s' % (s_, v))
+    for (w, sites, res) in wrapper_scenarios(ctx):
+        if w.body is None or not sites or len(sites.get('new', [])) != 1:
+            continue
+        ex = w.ex
+        nb, nt = sites['new'][0]
+        cn = callee_name(nt)
+        adt = cn.rsplit('::', 1)[0]
+        names = NEW_ARGS.get(adt)
+        n += 1
+        e = w.e
+        scope_expected = {'Global': N.GLOBAL, 'ThreadLocal': N.THREAD, 'Async': N.ASYNC}[e['scope']]
+        if 'C14' in rules:
+            if adt != scope_expected:
+                run.bad('C14-W1', _fx_key(w, 'scope-branch'), 'scope attribute of %s says %s but the selected branch builds %s' % (w.path, e['scope'], adt.rsplit('::', 1)[-1]), site=w.path,
+                        oracle='scope attribute selects ThreadLocalCache (thread) / GlobalCache (global, default) / AsyncGlobalCache')
+            else:
+                # statics: thread -> LocalKey consts; global/async -> process statics; all owned by this function
+                probs = []
+                for i in (0, 1):
+                    se = ex.operand(nt['args'][i])
+                    sid = se[1] if se[0] == 'static' else None
+                    info = ctx.prog.statics.get(sid) if sid else None
+                    if info is None:
+                        probs.append('argument %d (%s) is not a static of the function' % (i, show(se)))
+                        continue
+                    is_tl = info['kind'] == 'const' and info['ty'].startswith(N.LOCALKEY + '<')
+                    if (adt == N.THREAD) != is_tl:
+                        probs.append('%s store built on a %s' % ('thread-scope' if adt == N.THREAD else 'global-scope', 'thread-local key' if is_tl else 'process static'))
+                    if info.get('parent_fn') != w.body.id:
+                        probs.append('static %s belongs to %s, not to this function' % (sid, info.get('parent_fn')))
+                if probs:
+                    run.bad('C14-W1', _fx_key(w, 'statics'), '%s: %s' % (w.path, '; '.join(probs)), site=w.path, oracle='thread scope on thread_local! keys, global scope on process statics, one store per function')
+                else:
+                    run.ok('C14-W1', w.path, '%s on %s statics owned by the function' % (adt.rsplit('::', 1)[-1], 'thread-local' if adt == N.THREAD else 'process'))
+        if 'C19' in rules and names:
+            probs = []
+            for i, nm in enumerate(names):
+                if i >= len(nt['args']):
+                    probs.append('missing constructor argument %s' % nm)
+                    continue
+                ae = ex.operand(nt['args'][i])
+                if nm in ('limit', 'ttl', 'max_memory'):
+                    got = _opt_const(ae)
+                    wantv = ('none',) if e[nm] is None else ('some', e[nm])
+                    if got != wantv:
+                        probs.append('%s: constructor receives %s, attribute says %s' % (nm, show(ae), e[nm]))
+                elif nm == 'frequency_weight':
+                    got = _opt_const(ae)
+                    wantv = ('none',) if e[nm] is None else ('some', float(e[nm]))
+                    if got is None or (got[0] == 'some' and (wantv[0] != 'some' or abs(float(got[1]) - wantv[1]) > 1e-12)) or (got[0] == 'none' and wantv[0] != 'none'):
+                        probs.append('frequency_weight: constructor receives %s, attribute says %s' % (show(ae), e[nm]))
+                elif nm == 'policy':
+                    a2 = strip_casts(ae)
+                    got = None
+                    if a2[0] == 'agg' and a2[1].startswith(N.POLICY + '::'):
+                        got = a2[1].rsplit('::', 1)[-1]
+                    elif a2[0] == 'call' and (a2[4].get('resolved') or '').startswith('<cachelito_core::eviction_policy::EvictionPolicy as core::convert::From<&str>>'):
+                        s_ = a2[2][0]
+                        if s_[0] == 'const' and isinstance(s_[1], str) and ptab is not None:
+                            got = ptab.get(s_[1].lower(), 'LRU')
+                    if got != e['policy']:
+                        probs.append('policy: constructor receives %s, attribute says %s' % (got or show(ae), e['policy']))
+            if probs:
+                run.bad('C19-W1', _fx_key(w, 'config'), '%s [%s]: %s' % (w.path, ', '.join('%s = %s' % (a, b) for a, b in e['attrs']), '; '.join(probs)), site=w.path,
+                        oracle='constructor constants equal the attribute values (KB/MB/GB powers of 1024)')
+            else:
+                run.ok('C19-W1', w.path, 'limit=%s ttl=%s max_memory=%s policy=%s fw=%s' % (e['limit'], e['ttl'], e['max_memory'], e['policy'], e['frequency_weight']))
+    return n
+
+
+# ------------------------------------------------------------------------------------------------
+TO_KEY = 'cachelito_core::keys::CacheableKey::to_cache_key'
+NEW_DEBUG = 'core::fmt::rt::Argument::new_debug'
+PUSH = 'alloc::vec::Vec::push'
+JOIN = 'alloc::slice::<impl [T]>::join'
+SAFE_SEP_FORBIDDEN = set('abcdefghijklmnopqrstuvwxyzABCDEFGHIJKLMNOPQRSTUVWXYZ0123456789_ .,:+-()[]{}"\'\\')
+
+
+def _key_parts(w, key_expr):
+    """[part expression] in order, separator or None, problems"""
+    ex = w.ex
+    body = w.body
+    e = strip_casts(key_expr)
+    probs = []
+    if e[0] == 'call' and e[1] == JOIN:
+        sep = e[2][1]
+        sepv = sep[1] if sep[0] == 'const' else None
+        # the vector joined: find pushes onto the same local
+        vec = e[2][0]
+        parts = []
+        for b, t in sorted(body.calls(), key=lambda x: x[0]):
+            if callee_name(t) == PUSH and ex.operand(t['args'][0]) == vec:
+                parts.append((b, ex.operand(t['args'][1])))
+        return [p for (_, p) in parts], sepv, probs
+    if e[0] == 'call' and e[1] == 'alloc::string::String::new':
+        return [], None, probs
+    return [e], None, probs
+
+
+def _part_source(w, part):
+    """('debug'|'display'|'cache_key'|'?', normalised source expression)"""
+    p = strip_casts(part)
+    if p[0] == 'call' and p[1] == 'core::hint::must_use':
+        p = strip_casts(p[2][0])
+    if p[0] == 'call' and p[1] == TO_KEY:
+        return 'cache_key', w.norm(p[2][0])
+    if p[0] == 'call' and p[1] == 'alloc::fmt::format':
+        fmts = [c for c in calls_in(p) if c[1].startswith('core::fmt::rt::Argument::new_')]
+        if len(fmts) == 1:
+            kind = fmts[0][1].rsplit('::new_', 1)[-1]
+            return ('debug' if kind == 'debug' else kind), w.norm(fmts[0][2][0])
+        return '?', p
+    return '?', p
+
+
+def check_key_builder(run, ctx):
+    """C02-W1 every parameter (receiver first) contributes exactly one Debug-rendered part, in order; C02-W2 separator safety"""
+    n = 0
+    for (w, sites, res) in wrapper_scenarios(ctx):
+        if w.body is None or not sites or len(sites.get('get', [])) != 1:
+            continue
+        n += 1
+        gb, gt = sites['get'][0]
+        key = w.ex.operand(gt['args'][1])
+        parts, sep, probs = _key_parts(w, key)
+        nparams = len(w.e['params']) + (1 if w.e['receiver'] else 0)
+        want_kind = 'debug' if w.is_async else 'cache_key'
+        srcs = []
+        for p in parts:
+            kind, src = _part_source(w, p)
+            if kind != want_kind:
+                probs.append('a key part is rendered with %s instead of %s: %s' % (kind, 'Debug ({:?})' if w.is_async else 'CacheableKey::to_cache_key', show(p)))
+            srcs.append(src)
+        want = [w.param_expr(i) for i in range(1, nparams + 1)]
+        if [s for s in srcs] != want:
+            probs.append('key parts come from %s, expected each parameter once in order %s' % ([show(s) for s in srcs], [show(x) for x in want]))
+        if len(parts) >= 2 or (len(parts) == 1 and sep is not None):
+            if sep is None or sep == '':
+                probs.append('parts are joined with an empty separator: (1, 23) and (12, 3) share a key')
+            elif any(ch in SAFE_SEP_FORBIDDEN for ch in sep):
+                probs.append('separator %r can occur unquoted inside a Debug rendering' % sep)
+        if nparams >= 2 and sep is None:
+            probs.append('%d parts but no join with a separator' % nparams)
+        if probs:
+            run.bad('C02-W1' if not any('separator' in p for p in probs) else 'C02-W2', _fx_key(w, 'key-builder'),
+                    'key of %s: %s' % (w.path, '; '.join(probs)), site=w.path, oracle='one Debug-rendered part per parameter (receiver first), joined by "|"')
+        else:
+            run.ok('C02-W1', w.path, '%d part(s)%s' % (len(parts), ', separator %r' % sep if sep else ''))
+    return n
+
+
+# ------------------------------------------------------------------------------------------------
+REGISTER = 'cachelito_core::invalidation::InvalidationRegistry::register'
+REGISTER_CB = 'cachelito_core::invalidation::InvalidationRegistry::register_callback'
+REGISTER_CHECK = 'cachelito_core::invalidation::InvalidationRegistry::register_invalidation_callback'
+STATS_REGISTER = 'cachelito_core::stats_registry::register'
+META_NEW = 'cachelito_core::invalidation::InvalidationMetadata::new'
+
+
+def _string_consts(body, operand, ex=None):
+    """string constants in the backward slice of an operand (def-use closure incl. writes through projections)"""
+    seen = set()
+    out = []
+    todo = []
+    p = operand.get('move') or operand.get('copy')
+    if p is None:
+        if 'const' in operand and 'str' in operand['const']:
+            return [operand['const']['str']]
+        return []
+    todo.append(p['l'])
+    while todo:
+        l = todo.pop()
+        if l in seen:
+            continue
+        seen.add(l)
+        for bi, bl in enumerate(body.blocks):
+            if bl['cleanup']:
+                continue
+            for si, st in enumerate(bl['stmts']):
+                if st['k'] == 'assign' and st['dst']['l'] == l:
+                    for o in _rv_operands(st['rv']):
+                        if 'const' in o and 'str' in o['const']:
+                            out.append((bi, si, o['const']['str']))
+                        q = o.get('move') or o.get('copy')
+                        if q is not None:
+                            todo.append(q['l'])
+                    for pl in _rv_places(st['rv']):
+                        todo.append(pl['l'])
+                # writes *through* l (l is a pointer/box to the array being filled)
+            t = bl['term']
+            if t['k'] == 'call' and t['dst']['l'] == l:
+                for a in t['args']:
+                    if 'const' in a and 'str' in a['const']:
+                        out.append((bi, 999, a['const']['str']))
+                    q = a.get('move') or a.get('copy')
+                    if q is not None:
+                        todo.append(q['l'])
+        # statements that write through a projection of a local derived from l are found because dst.l == l
+    out.sort()
+    return [s for (_, _, s) in out]
+
+
+def _rv_operands(rv):
+    if 'use' in rv:
+        return [rv['use']]
+    if 'cast' in rv:
+        return [rv['cast']]
+    if 'agg' in rv:
+        return list(rv['ops'])
+    if 'bin' in rv:
+        return [rv['a'], rv['b']]
+    if 'un' in rv:
+        return [rv['a']]
+    if 'repeat' in rv:
+        return [rv['repeat']]
+    return []
+
+
+def _rv_places(rv):
+    for k in ('ref', 'rawptr', 'discr'):
+        if k in rv:
+            return [rv[k]]
+    return []
+
+
+def check_registration(run, ctx, rules=('C12', 'C15')):
+    """C12-W1 metadata + clear-callback registration; C15-W1 stats registration"""
+    n = 0
+    prog = ctx.prog
+    for (w, sites, res) in wrapper_scenarios(ctx):
+        if w.body is None or not sites:
+            continue
+        e = w.e
+        grouped = bool(e['tags'] or e['events'] or e['dependencies'])
+        is_global = e['scope'] in ('Global', 'Async')
+        if not is_global:
+            continue
+        reach = w.selected()
+        onces = [(b, t) for (b, t) in sites.get('once', []) if b in reach]
+        # closures run by the once calls
+        reg = {'register': [], 'register_cb': [], 'register_check': [], 'stats': []}
+        for (b, t) in onces:
+            for cb in prog.closures_passed(t):
+                for b2, t2 in cb.calls():
+                    cn = callee_name(t2)
+                    if cn == REGISTER:
+                        reg['register'].append((cb, b2, t2, b))
+                    elif cn == REGISTER_CB:
+                        reg['register_cb'].append((cb, b2, t2, b))
+                    elif cn == REGISTER_CHECK:
+                        reg['register_check'].append((cb, b2, t2, b))
+                    elif cn == STATS_REGISTER:
+                        reg['stats'].append((cb, b2, t2, b))
+        gb = sites['get'][0][0] if sites.get('get') else None
+        n += 1
+        if 'C15' in rules:
+            probs = []
+            if len(reg['stats']) != 1:
+                probs.append('%d stats registrations' % len(reg['stats']))
+            else:
+                cb, b2, t2, ob = reg['stats'][0]
+                ex2 = Expr(cb)
+                nm = ex2.operand(t2['args'][0])
+                st_ = ex2.operand(t2['args'][1])
+                if not (nm[0] == 'const' and nm[1] == e['name']):
+                    probs.append('registered under %s, expected "%s"' % (show(nm), e['name']))
+                # same static as passed to the cache
+                newt = sites['new'][0][1]
+                passed = w.ex.operand(newt['args'][-1])
+                if st_[0] != 'static' or passed[0] != 'static' or st_[1] != passed[1]:
+                    probs.append('registered stats %s is not the static passed to the cache (%s)' % (show(st_), show(passed)))
+                if gb is not None and not w.body.dominates(ob, gb):
+                    probs.append('registration does not dominate the lookup')
+            if probs:
+                run.bad('C15-W1', _fx_key(w, 'stats-registration'), '%s: %s' % (w.path, '; '.join(probs)), site=w.path,
+                        oracle='stats_registry::register(name attribute or function name, &STATS) before the first lookup, STATS being the cache\'s own')
+            else:
+                run.ok('C15-W1', w.path, 'stats registered as "%s"' % e['name'])
+        if 'C12' in rules:
+            probs = []
+            if grouped:
+                if len(reg['register']) != 1 or len(reg['register_cb']) != 1:
+                    probs.append('%d metadata registrations and %d clear-callback registrations (expected one each)' % (len(reg['register']), len(reg['register_cb'])))
+                else:
+                    cb, b2, t2, ob = reg['register'][0]
+                    ex2 = Expr(cb)
+                    nm = ex2.operand(t2['args'][1])
+                    if not (nm[0] == 'const' and nm[1] == e['name']):
+                        probs.append('metadata registered under %s, expected "%s"' % (show(nm), e['name']))
+                    meta = ex2.operand(t2['args'][2])
+                    mcalls = [(bb_, tt) for bb_, tt in cb.calls() if callee_name(tt) == META_NEW]
+                    if len(mcalls) != 1:
+                        probs.append('no InvalidationMetadata::new')
+                    else:
+                        mt = mcalls[0][1]
+                        for i, k in enumerate(('tags', 'events', 'dependencies')):
+                            got = _string_consts(cb, mt['args'][i])
+                            if got != e[k]:
+                                probs.append('%s registered as %s, attribute says %s' % (k, got, e[k]))
+                    cb3, b3, t3, ob3 = reg['register_cb'][0]
+                    nm3 = Expr(cb3).operand(t3['args'][1])
+                    if not (nm3[0] == 'const' and nm3[1] == e['name']):
+                        probs.append('clear callback registered under %s, expected "%s"' % (show(nm3), e['name']))
+                    if gb is not None and not (w.body.dominates(ob, gb) and w.body.dominates(ob3, gb)):
+                        probs.append('registration does not dominate the lookup')
+            else:
+                if reg['register'] or reg['register_cb']:
+                    probs.append('function without tags/events/dependencies registers invalidation metadata')
+            if len(reg['register_check']) != 1:
+                probs.append('%d conditional-invalidation callback registrations (expected 1)' % len(reg['register_check']))
+            else:
+                cb4, b4, t4, ob4 = reg['register_check'][0]
+                nm4 = Expr(cb4).operand(t4['args'][1])
+                if not (nm4[0] == 'const' and nm4[1] == e['name']):
+                    probs.append('conditional callback registered under %s, expected "%s"' % (show(nm4), e['name']))
+            if probs:
+                run.bad('C12-W1', _fx_key(w, 'registration'), '%s: %s' % (w.path, '; '.join(probs)), site=w.path,
+                        oracle='register(name, Metadata(tags, events, deps)) and register_callback(name, clear) inside a Once that dominates the lookup')
+            else:
+                run.ok('C12-W1', w.path, 'registered as "%s" tags=%s events=%s deps=%s' % (e['name'], e['tags'], e['events'], e['dependencies']) if grouped else 'no group metadata, conditional callback registered')
+    return n
+
+
+def check_callbacks(run, ctx, rules=('C12', 'C13')):
+    """C12-W2 clear callback empties store and queue of its own function and nothing else;
+    C13-W1 conditional callback removes exactly the collected keys from store and queue; C13-W2 own statics only"""
+    from .effects import classify, Effects
+    prog = ctx.prog
+    eff = Effects(prog)
+    n = 0
+    for kind in ('clear', 'check'):
+        for (cb, regbody, blk) in prog.registered[kind]:
+            role = ctx.role(cb)
+            if role is None:
+                continue
+            n += 1
+            # owner function = the fixture wrapper this closure is nested in
+            owner = cb
+            while owner is not None and owner.name not in ctx.expect:
+                owner = prog.bodies.get(owner.parent)
+            owner_body_ids = set()
+            if owner is not None:
+                owner_body_ids = {owner.id} | {d.id for d in owner.crate.descendants(owner)}
+            scope = [cb] + cb.crate.descendants(cb)
+            statics = set()
+            for x in scope:
+                for bl in x.blocks:
+                    for st in bl['stmts']:
+                        if st['k'] == 'assign':
+                            for o in _rv_operands(st['rv']):
+                                if 'const' in o and 'static' in o['const']:
+                                    statics.add(o['const']['static'])
+                    t = bl['term']
+                    for a in t.get('args', []) if t['k'] == 'call' else []:
+                        if 'const' in a and 'static' in a['const']:
+                            statics.add(a['const']['static'])
+            foreign = [s for s in statics if prog.statics.get(s, {}).get('parent_fn') not in owner_body_ids]
+            rule2 = 'C13-W2'
+            if ('C13' in rules) or ('C12' in rules and kind == 'clear'):
+                if foreign:
+                    run.bad(rule2, 'generated:%s/foreign-statics' % role, 'a %s callback of %s touches statics of another function: %s' % (kind, owner.name if owner else '?', foreign),
+                            site=cb.name, oracle='callbacks reference only the statics of the function they were registered for')
+                else:
+                    run.ok(rule2, cb.name, '%d static(s), all owned by %s' % (len(statics), owner.name if owner else '?'))
+            kinds = defaultdict(int)
+            for x in scope:
+                for (b, k, t) in eff.prim(x):
+                    kinds[k] += 1
+            if kind == 'clear' and 'C12' in rules:
+                ok = kinds.get('S0', 0) == 1 and kinds.get('Q0', 0) == 1 and not any(k in kinds for k in ('S+', 'S-', 'Q>', 'Q<', 'Q-at', 'Q-key', 'Q-front', 'Q-back'))
+                if ok:
+                    run.ok('C12-W2', cb.name, 'clears store and queue')
+                else:
+                    run.bad('C12-W2', 'generated:%s/clear-shape' % role, 'the clear callback must empty the store and the order queue and do nothing else; found effects %s' % dict(kinds),
+                            site=cb.name, oracle='S0 and Q0 on the function\'s own statics')
+            if kind == 'check' and 'C13' in rules:
+                probs = _check_conditional_callback(ctx, cb, eff)
+                if probs:
+                    run.bad('C13-W1', 'generated:%s/conditional-shape' % role, 'conditional-invalidation callback: %s' % '; '.join(probs), site=cb.name,
+                            oracle='collect keys satisfying the predicate; remove exactly those from store and queue')
+                else:
+                    run.ok('C13-W1', cb.name, 'removes exactly the predicate-selected keys from store and queue')
+    return n
+
+
+def _check_conditional_callback(ctx, cb, eff):
+    from .effects import classify
+    prog = ctx.prog
+    probs = []
+    ex = Expr(cb)
+    prim = eff.prim(cb)
+    kinds = defaultdict(list)
+    for (b, k, t) in prim:
+        kinds[k].append((b, t))
+    for k in ('S0', 'Q0', 'S+', 'Q>', 'Q<', 'Q-front', 'Q-back', 'Q-key'):
+        if kinds.get(k):
+            probs.append('unexpected effect %s' % k)
+    if len(kinds.get('S-', [])) != 1 or len(kinds.get('Q-at', [])) != 1:
+        probs.append('expected one store removal and one positional queue removal per key, found S-=%d Q-at=%d' % (len(kinds.get('S-', [])), len(kinds.get('Q-at', []))))
+        return probs
+    sb, st = kinds['S-'][0]
+    qb, qt = kinds['Q-at'][0]
+    # the removed key is the loop variable over the collected vector
+    key = ex.operand(st['args'][1])
+    root, names = field_path(strip_casts(key))
+    loop_next = root if (root[0] == 'call' and root[1].endswith('Iterator::next')) else None
+    if loop_next is None:
+        probs.append('the removed key is not an element of the collected key list: %s' % show(key))
+        return probs
+    # iterated collection: collect() of a filter over the store keys with the dyn predicate
+    src = loop_next
+    colls = [c for c in calls_in(src) if c[1] == 'core::iter::traits::iterator::Iterator::collect']
+    if not colls:
+        probs.append('the loop does not range over a collected key list')
+        return probs
+    coll = colls[0]
+    filt = [c for c in calls_in(coll) if c[1] == 'core::iter::traits::iterator::Iterator::filter']
+    srcs = [c for c in calls_in(coll) if c[1] in (N.HM + 'keys', N.DM + 'iter', N.HM + 'iter')]
+    if len(filt) != 1 or not srcs:
+        probs.append('keys are not collected by filtering the store with the predicate')
+        return probs
+    # the filter closure calls the dyn predicate (the callback's parameter) exactly once and returns its value
+    fcl = filt[0][4].get('closures') or []
+    called = 0
+    for cid in fcl:
+        fb = prog.bodies.get(cid)
+        if fb is None:
+            continue
+        for b2, t2 in fb.calls():
+            if prog.dyn_call_kind(fb, t2) == 'user':
+                called += 1
+                # result returned directly
+                fex = Expr(fb)
+                rets = [fex._def(d, 0) for d in fb.defs.get(0, [])]
+                if not all(r[0] == 'call' and r[3] == b2 for r in rets):
+                    probs.append('the filter does not return the predicate\'s verdict unchanged (negated or combined)')
+    if called != 1:
+        probs.append('the key predicate is called %d time(s) in the filter' % called)
+    # queue removal: position(== same key) on the queue
+    pos = ex.operand(qt['args'][1])
+    pr, pn = field_path(strip_casts(pos))
+    if not (pr[0] == 'call' and pr[1] == 'core::iter::traits::iterator::Iterator::position'):
+        probs.append('queue removal index does not come from position(== key)')
+    else:
+        pcl = pr[4].get('closures') or []
+        okk = False
+        for cid in pcl:
+            pb = prog.bodies.get(cid)
+            if pb is None:
+                continue
+            par, ops = prog.closure_capture_operands(pb)
+            if ops:
+                capt = [ex.operand(o) for o in ops]
+                if any(strip_casts(c) == strip_casts(key) or field_path(strip_casts(c))[0] == loop_next for c in capt):
+                    okk = True
+        if not okk:
+            probs.append('the queue position is not searched for the key being removed')
+    # both removals in the same loop iteration: the store removal dominates the queue removal or vice versa
+    if not (cb.dominates(sb, qb) or cb.dominates(qb, sb)):
+        probs.append('store and queue removal are not on the same path')
+    return probs
+
+
+# ------------------------------------------------------------------------------------------------
 def check_async_effect_order(run, ctx):
-    pass
+    """C20-W1: every store in a generated coroutine is dominated by the delivery of the body's value;
+    nothing but registration and the lookup touches the cache before the first suspension"""
+    n = 0
+    for (w, sites, res) in wrapper_scenarios(ctx):
+        if not w.is_async or w.body is None or not sites:
+            continue
+        body = w.body
+        n += 1
+        ready = []
+        for b, t in body.calls():
+            if callee_name(t) == POLL:
+                sw = t['target']
+                seen = set()
+                while sw is not None and body.term(sw)['k'] == 'goto' and sw not in seen:
+                    seen.add(sw)
+                    sw = body.term(sw)['target']
+                st = body.term(sw) if sw is not None else None
+                if st and st['k'] == 'switch':
+                    for v, tb in st['targets']:
+                        if v == 0:
+                            ready.append(tb)
+        yields = [b for b in range(body.n) if body.term(b)['k'] == 'yield' and not body.blocks[b]['cleanup']]
+        probs = []
+        if not ready or not yields:
+            probs.append('cannot find the poll loop of the body future')
+        for (sb, st) in sites.get('store', []):
+            if not any(body.dominates(r, sb) for r in ready):
+                probs.append('a store (bb%d) is reachable before the body\'s value exists' % sb)
+            if any(y in body.reachable(sb) for y in yields):
+                probs.append('a store (bb%d) can be followed by a suspension point' % sb)
+        for (gb, gt) in sites.get('get', []):
+            if any(gb in body.reachable(y) for y in yields):
+                probs.append('the lookup can run after a suspension')
+        if probs:
+            run.bad('C20-W1', _fx_key(w, 'effect-order'), '%s: %s' % (w.path, '; '.join(sorted(set(probs)))), site=w.path,
+                    oracle='stores dominated by the Ready edge of the body future; no cache mutation before it')
+        else:
+            run.ok('C20-W1', w.path, '%d store(s) dominated by Poll::Ready of the body' % len(sites.get('store', [])))
+    return n
+
+
 def check_send_witness(run, ctx):
-    pass
+    from . import gen_witness
+    return gen_witness.judge(run, ctx, 'C20-T1')
+
+
 def check_stats_registration(run, ctx):
-    pass
+    return check_registration(run, ctx, rules=('C15',))
+
+
 def check_memory_store_selected(run, ctx):
-    pass
+    n, fams = check_wrapper_flow(run, ctx, rules=('C05',))
+    return n
